@@ -409,6 +409,66 @@ def r09_4(rep: Report) -> None:
                      'instead of the new origin (drift between audio and the timing reference)', st)
 
 
+def r09_6(rep: Report) -> None:
+    """each URL the manifest advertises is completed with its own parameter set: the PatchLocation with
+    `cgi_params.patch` (the request's options minus what ServePatch forces), the MPD Location with
+    `cgi_params.manifest` (which also counts `update` up by one).  With the sets swapped every patch document
+    advertises a PatchLocation one update further than the manifest of the same instant, so patch and manifest
+    disagree from the first update on.  For every `PatchLocation(location=L)` / `self.locationURL = L` the
+    dict_to_cgi_params(..) calls that reach L are collected through the definitions of L."""
+    from ..core import subst_locals
+    rid = 'R09.6'
+    tree = rep.repo.tree(MC)
+    cls = need(find_class(tree, 'ManifestContext'), 'ManifestContext')
+    want = {'patch location': 'patch', 'manifest location': 'manifest'}
+    found: dict[str, int] = {k: 0 for k in want}
+    for m in [x for x in cls.body if isinstance(x, ast.FunctionDef)]:
+        fn = find_func(cls, m.name) or m
+        sinks: list[tuple[str, ast.AST, ast.AST]] = []
+        for n in ast.walk(fn):
+            if isinstance(n, ast.Call) and (call_name(n) or '').endswith('PatchLocation'):
+                loc = next((k.value for k in n.keywords if k.arg == 'location'), n.args[0] if n.args else None)
+                if loc is not None:
+                    sinks.append(('patch location', loc, n))
+            if isinstance(n, ast.Assign) and len(n.targets) == 1 and norm(n.targets[0]) == 'self.locationURL':
+                sinks.append(('manifest location', n.value, n))
+        for kind, loc, site in sinks:
+            # every expression that flows into the location (flow-insensitive over the locals involved)
+            exprs = [loc]
+            names: set[str] = set()
+            for _ in range(5):
+                new = {x.id for e in exprs for x in ast.walk(e) if isinstance(x, ast.Name)} - names
+                if not new:
+                    break
+                names |= new
+                for a_ in ast.walk(fn):
+                    if isinstance(a_, ast.Assign) and any(isinstance(t_, ast.Name) and t_.id in new for t_ in a_.targets):
+                        exprs.append(a_.value)
+                    elif isinstance(a_, ast.AugAssign) and isinstance(a_.target, ast.Name) and a_.target.id in new:
+                        exprs.append(a_.value)
+            sets = set()
+            for e in exprs:
+                for c in ast.walk(e):
+                    if isinstance(c, ast.Call) and (call_name(c) or '').endswith('dict_to_cgi_params') and c.args:
+                        sets.add(norm(subst_locals(fn, c.args[0])))
+            found[kind] += 1
+            construct = f'{MC}::ManifestContext.{fn.name}'
+            expect = f'self.cgi_params.{want[kind]}'
+            if sets == {expect}:
+                rep.ok(rid, construct, kind, f'completed with {expect}')
+            else:
+                rep.fail(rid, construct, kind,
+                         f'the {kind} is completed with {sorted(sets) or "no parameter set"}, not with `{expect}`: '
+                         + ('the patch parameter set leaves out what ServePatch forces and keeps `update` as requested; with '
+                            'another set every patch advertises a PatchLocation that differs from the one in the manifest of '
+                            'the same instant' if kind == 'patch location' else
+                            'the Location a client refreshes from must carry the manifest parameter set (update counted up)'),
+                         site)
+    for kind, n_ in found.items():
+        if n_ == 0:
+            raise AnalysisError(f'ManifestContext: no {kind} is built (PatchLocation(..) / self.locationURL)')
+
+
 def analyse(rep: Report) -> None:
     rep.explanation = (
         'Only the clauses of C09 that are agreements between two pieces of source: template-AST '
@@ -421,11 +481,13 @@ def analyse(rep: Report) -> None:
     rep.rule('R09.3', 'originalPublishTime and patch capability agree between the two endpoints', floor=5)
     rep.rule('R09.4', 'loop wrap re-establishes (mod_segment = 1, seg_start_tc = origin_time)', floor=1)
     rep.rule('R09.5', 'a segment is listed with the same start and duration whatever the window (S runs: rule of C06)', floor=1)
+    rep.rule('R09.6', 'PatchLocation and Location are completed with their own parameter sets', floor=2)
     idx = Index(rep.repo)
     r09_1(rep)
     r09_2(rep, idx)
     r09_3(rep)
     r09_4(rep)
+    r09_6(rep)
     from ..core import lift
     from . import c06 as _c06
 
